@@ -16,18 +16,27 @@
 From Coq Require Import List Bool NArith.
 Import ListNotations.
 
-Inductive tok : Type :=
-| Sig (s : N)        (* any token ReadPeek hands to the parser (kind + spelling, hashed) *)
+Inductive tok (K A : Type) : Type :=
+| Sig (s : K)        (* any token ReadPeek hands to the parser (K: kind + spelling; a hash in the harness,
+                        the pair (type, literal) of the lexer model in Proofs/DecorReal.v) *)
 | Cmt                (* ordinary comment *)
-| Ann (a : N)        (* annotation comment *)
+| Ann (a : A)        (* annotation comment *)
 | LF                 (* line feed *)
-| Blank.             (* blanks / tabs *)
+| Blank.             (* blanks / tabs (and FASTLY_CONTROL tokens, which ReadPeek skips) *)
+Arguments Sig {K A} s.
+Arguments Cmt {K A}.
+Arguments Ann {K A} a.
+Arguments LF {K A}.
+Arguments Blank {K A}.
+
+Section Pump.
+Context {K A : Type}.
 
 (* what the parser receives for one significant token: the token and its annotation comments,
    each with the PrefixedLineFeed flag *)
-Definition item : Type := (N * list (N * bool))%type.
+Definition item : Type := (K * list (A * bool))%type.
 
-Fixpoint pump_go (lf : bool) (acc : list (N * bool)) (ts : list tok) : list item :=
+Fixpoint pump_go (lf : bool) (acc : list (A * bool)) (ts : list (tok K A)) : list item :=
   match ts with
   | [] => []
   | Sig s :: r => (s, rev acc) :: pump_go false [] r
@@ -37,12 +46,12 @@ Fixpoint pump_go (lf : bool) (acc : list (N * bool)) (ts : list tok) : list item
   | Ann a :: r => pump_go lf ((a, lf) :: acc) r
   end.
 
-Definition pump (ts : list tok) : list item := pump_go false [] ts.
-Definition significant (ts : list tok) : list N := map fst (pump ts).
-Definition annotations (ts : list tok) : list (list (N * bool)) := map snd (pump ts).
+Definition pump (ts : list (tok K A)) : list item := pump_go false [] ts.
+Definition significant (ts : list (tok K A)) : list K := map fst (pump ts).
+Definition annotations (ts : list (tok K A)) : list (list (A * bool)) := map snd (pump ts).
 
 (* the line-feed flag after a prefix *)
-Fixpoint flag_after (lf : bool) (ts : list tok) : bool :=
+Fixpoint flag_after (lf : bool) (ts : list (tok K A)) : bool :=
   match ts with
   | [] => lf
   | Sig _ :: r => flag_after false r
@@ -51,7 +60,7 @@ Fixpoint flag_after (lf : bool) (ts : list tok) : bool :=
   end.
 
 (* no annotation comment before the next significant token *)
-Fixpoint no_ann_ahead (ts : list tok) : bool :=
+Fixpoint no_ann_ahead (ts : list (tok K A)) : bool :=
   match ts with
   | [] => true
   | Sig _ :: _ => true
@@ -63,7 +72,7 @@ Fixpoint no_ann_ahead (ts : list tok) : bool :=
    remove line feeds anywhere except where that would change whether an ANNOTATION comment is
    preceded by a line feed since the last significant token (a `falco-ignore-next-line` at the
    end of a line is not the same directive as one on a line of its own) *)
-Inductive decorate : list tok -> list tok -> Prop :=
+Inductive decorate : list (tok K A) -> list (tok K A) -> Prop :=
 | d_refl : forall ts, decorate ts ts
 | d_sym : forall a b, decorate a b -> decorate b a
 | d_trans : forall a b c, decorate a b -> decorate b c -> decorate a c
@@ -75,14 +84,15 @@ Inductive decorate : list tok -> list tok -> Prop :=
 (* ---- rendered text (ast String()): a node's rendering includes the ORDINARY comments attached to
    it.  [rendered] keeps, for every significant token, the number of ordinary comments in front
    of it: the information a decision based on String() additionally depends on. *)
-Fixpoint rendered_go (n : nat) (ts : list tok) : list (N * nat) :=
+Fixpoint rendered_go (n : nat) (ts : list (tok K A)) : list (K * nat) :=
   match ts with
   | [] => []
   | Sig s :: r => (s, n) :: rendered_go 0 r
   | Cmt :: r => rendered_go (S n) r
   | _ :: r => rendered_go n r
   end.
-Definition rendered (ts : list tok) : list (N * nat) := rendered_go 0 ts.
+Definition rendered (ts : list (tok K A)) : list (K * nat) := rendered_go 0 ts.
+End Pump.
 
 (* the duplicate-label test of ParseSwitchStatement before the repair: two case labels are the
    same when their renderings are equal *)
